@@ -19,6 +19,8 @@ RULE = ('programs = corpus (friendly ones), placements = every executable line a
         'objects of application classes named like the types the collector treats specially (22 names x {local, inside a dict}); '
         'concurrent facet = 2 threads x all schedules with <=1 preemption at line granularity in every deep/ module; '
         'non-trivial = the snapshot carries at least one variable with children or a watch, or >1 frame')
+RULE_ADDED = 'rounds 3-5: application classes named like special types (22 names x 2 sites); special values (exception with attributes, dictionary with a moved key hash); reference names_at() for watches'
+RULE = RULE + ' ; ' + RULE_ADDED
 ASSUMPTIONS = ['order of variables/children is not compared',
                'the line named for a method tracepoint is the line it was given', 'unknown frame_type values are don\'t-cares']
 
